@@ -161,6 +161,12 @@ def gen_decision(rng):
         target['obj'] = {'__opaque__': 1}
     if rng.random() < 0.2:
         target['obj2'] = {'__opaque__': 2}
+    if rng.random() < 0.12:
+        # an opaque object below the top level (inside a list, a dict, a
+        # tuple): whether such a call goes through or raises is left
+        # unconstrained, but the caller's target must come back untouched
+        target['attachments'] = {'__nested_opaque__': rng.choice(
+            ('list', 'dict', 'list-dict', 'tuple', 'dict-list'))}
     creds = {'roles': rng.sample(roles_u, rng.randint(0, 3)),
              'user_id': 'u1', 'project_id': rng.choice(['p-1', 'p-2'])}
     if rng.random() < 0.2:
@@ -363,6 +369,21 @@ def kleene(a, val, rules, roles, depth=0):
     return T if T in vs else (U if U in vs else F)
 
 
+def _freeze(v, keep):
+    """Structural fingerprint of a target value in which bare object()
+    instances count by identity (deepcopy would clone them and == would
+    then fail); `keep` holds them so that ids cannot be reused."""
+    if type(v) is object:
+        keep.append(v)
+        return ('obj', id(v))
+    if isinstance(v, dict):
+        return ('dict', tuple((repr(k), _freeze(x, keep))
+                              for k, x in v.items()))
+    if isinstance(v, (list, tuple)):
+        return (type(v).__name__, tuple(_freeze(x, keep) for x in v))
+    return ('val', type(v).__name__, repr(v))
+
+
 def _materialise(target):
     out = {}
     opaque = {}
@@ -370,6 +391,14 @@ def _materialise(target):
         if isinstance(v, dict) and '__opaque__' in v:
             out[k] = object()
             opaque[k] = out[k]
+        elif isinstance(v, dict) and '__nested_opaque__' in v:
+            o = object()
+            out[k] = {'list': lambda: ['vol-1', o],
+                      'dict': lambda: {'dev': o, 'n': 1},
+                      'list-dict': lambda: [{'dev': o}, 'vol-2'],
+                      'tuple': lambda: ('vol-1', o),
+                      'dict-list': lambda: {'devs': [o, o], 'n': [1]},
+                      }[v['__nested_opaque__']]()
         elif isinstance(v, dict) and '__tuple__' in v:
             out[k] = tuple(copy.deepcopy(v['__tuple__']))
         elif isinstance(v, dict) and '__mixedkeys__' in v:
@@ -467,6 +496,12 @@ def run_decision(d, dg=None, cnt=None):
             cnt.hit('knob:enforced_name_falls_back_to_default_rule')
         e.set_rules(policy.Rules.from_dict(text_rules), use_conf=False)
         target, opaque = _materialise(d['target'])
+        keep_alive = []
+        frozen = _freeze(target, keep_alive)
+        nested_opaque = any(isinstance(v, dict) and '__nested_opaque__' in v
+                            for v in d['target'].values())
+        if nested_opaque:
+            cnt.hit('knob:opaque_object_below_top_level')
         snapshot = {k: (v if k in opaque else copy.deepcopy(v))
                     for k, v in target.items()}
         plain_target = {k: ({} if k in opaque else v)
@@ -510,6 +545,13 @@ def run_decision(d, dg=None, cnt=None):
                               variant=d['variant'])
                 return detail
 
+            if _freeze(target, []) != frozen:
+                return viol('target-mutated', how='structure'), simtime
+            if nested_opaque:
+                if got == 'HANG':
+                    return viol('hang-no-timeout', want='?'), simtime
+                cnt.hit('target_checked_decision_unconstrained')
+                return None, simtime
             reach = leaves(rules[d['pname']], rules)
             vals = {u: val[u] for u in reach}
             if any(v is None for v in vals.values()):
